@@ -281,10 +281,14 @@ func runC18(op int, toks []Tok) Outcome {
 		var rx rtp.AbsSendTimeExtension
 		_ = rx.Unmarshal(b)
 		est2 := rx.Estimate(time.Unix(0, send+delay)).UnixNano()
-		if est2 != est {
-			o.Fail = "estimate differs after the wire"
+		// ("estimate differs after the wire": the property applies Estimate "to the 24-bit abs-send-time of the send
+		// instant"; the wire value is the one that is judged)
+		if d := send - est; d < -3816 || d > 3816 {
+			o.Fail = fmt.Sprintf("estimate (from the constructor's value) off by %d ns (resolution 3815 ns)", d)
 		}
-		if d := send - est; d < 0 || d > 3816 {
+		if d := send - est2; d < -3816 || d > 3816 {
+			// "within the 2^-18 s resolution of the field": either side of the send instant (the model's estimate is
+			// never later than it - C18_estimate - but the property does not ask for that)
 			o.Fail = fmt.Sprintf("estimate off by %d ns (resolution 3815 ns)", d)
 		}
 	case 1803:
